@@ -6,6 +6,7 @@
  *   X id=<n> win=<replay window> b12=<0|1> freq=<ssn_freq>
  *   F <piv>      fresh request whose partial IV is <piv> (client's sender sequence number is set to it first)
  *   N            fresh request with the client's next partial IV
+ *   H <piv>      fresh request with partial IV <piv> that the network holds back: captured, every copy lost; R <piv> is then its (late) first arrival
  *   R <piv>      replay the captured request that carried <piv>, byte for byte
  *   G <piv> <claimed>   forgery: captured request <piv> with the partial IV field rewritten to <claimed> and one
  *                ciphertext bit flipped (claimed == piv: only the ciphertext is damaged)
@@ -26,6 +27,7 @@ static uint64_t saved_seq;
 static int have_saved;
 static struct { uint64_t piv; uint8_t *d; size_t n; } cap[MAXCAP];
 static int ncap;
+static int holding;            /* the client's datagrams are lost (held back in the network) */
 static int peer_code;
 
 static int prng(void *out, size_t len) {
@@ -63,8 +65,8 @@ static int piv_of(const uint8_t *d, size_t n, uint64_t *piv) {
 
 static void on_tx(int node, coap_session_t *s, const sim_dgram_t *dg, sim_verdict_t *v) {
   uint64_t piv;
-  (void)v;
   if (!s || s->context != cctx) return;
+  if (holding) v->copies = 0;
   (void)node;
   if (dg->len >= 4 && dg->data[1] >= 1 && dg->data[1] <= 31 && piv_of(dg->data, dg->len, &piv)) {
     int i;
@@ -195,10 +197,11 @@ int main(int argc, char **argv) {
       fflush(sim_trace);
     } else if (!sctx || !csess) {
       continue;
-    } else if (line[0] == 'F' || line[0] == 'N') {
+    } else if (line[0] == 'F' || line[0] == 'N' || line[0] == 'H') {
       unsigned long long n = 0;
       uint64_t before;
-      if (line[0] == 'F') {
+      holding = line[0] == 'H';
+      if (line[0] == 'F' || line[0] == 'H') {
         sscanf(line + 1, "%llu", &n);
         if (csess->recipient_ctx && csess->recipient_ctx->osc_ctx)
         {
@@ -211,8 +214,9 @@ int main(int argc, char **argv) {
       before = csess->recipient_ctx ? csess->recipient_ctx->osc_ctx->sender_context->seq : 0;
       handled = 0; resp_count = 0; resp_code = -1;
       send_req();
-      fprintf(sim_trace, "{\"e\":\"Step\",\"kind\":\"fresh\",\"n\":%llu,\"handled\":%d,\"resp\":%d,\"nresp\":%d}\n",
+      fprintf(sim_trace, "{\"e\":\"Step\",\"kind\":\"%s\",\"n\":%llu,\"handled\":%d,\"resp\":%d,\"nresp\":%d}\n", holding ? "held" : "fresh",
               (unsigned long long)before, handled, resp_code, resp_count);
+      holding = 0;
     } else if (line[0] == 'R' || line[0] == 'G') {
       unsigned long long n = 0, claimed = 0;
       int i, k = sscanf(line + 1, "%llu %llu", &n, &claimed);
